@@ -171,10 +171,17 @@ func vfRunPaths(t *testing.T, out *vfh.Out, lifetimes [2]time.Duration, ops []vf
 			cfgs = append(cfgs, cfg)
 			ifis[k] = &vfPathIface{fp: fp, name: name, cfg: cfg, watchC: make(chan netstate.Change, 8), done: make(chan error, 1)}
 		}
+		// in every other history the configuration lists a monitoring-only interface BEFORE the two
+		// advertising ones (a WAN uplink first, as configurations usually have it): what the scrape
+		// and the debug API report for an interface must not depend on its position
+		all := cfgs
+		if len(ops)%2 == 1 {
+			all = append([]config.Interface{{Name: "wan0", Monitor: true}}, cfgs...)
+		}
 		reg := prometheus.NewPedanticRegistry()
-		mm := NewMetrics(metricslite.NewPrometheus(reg), "v", time.Time{}, st, cfgs)
+		mm := NewMetrics(metricslite.NewPrometheus(reg), "v", time.Time{}, st, all)
 		cctx := NewContext(ll, mm, st)
-		handler := crhttp.NewHandler(ll, st, config.Config{Interfaces: cfgs}, nil)
+		handler := crhttp.NewHandler(ll, st, config.Config{Interfaces: all}, nil)
 		start := time.Now()
 		for k := 0; k < 2; k++ {
 			pi := ifis[k]
